@@ -135,4 +135,64 @@ theorem write_sim (st : St SimSt) (hp : st.pend = []) (hparts : st.dev.parts = [
   rw [simDev_parts_nil st.dev hparts] at h1
   rw [writeMem_eval (simDevice []) st writeReply _ n hp h1 (by decide +kernel) (by decide +kernel) (by decide +kernel)]
 
+
+/-- the transcript of a successful run -/
+def fullTrace (gs : List Chg) : List Str :=
+  prepCmds ++ [reloadCmd, lit "n", []] ++ [confCmd] ++ specTrace gs ++ [endCmd] ++ [cancelCmd, []] ++ [writeCmd]
+
+/-- **the whole of `ApplyCommands` against the scripted device**, for a script whose outputs are
+all accepted -/
+theorem apply_sim_ok (gs : List Chg) (q : List Behav) (st0 : St SimSt)
+    (hp : st0.pend = []) (ht : st0.trace = []) (hparts : st0.dev.parts = [])
+    (hq : st0.dev.queue = gs.flatMap Chg.behavs ++ q) (hc : ∀ g ∈ gs, g.Clean ∧ g.NoProbeFirst)
+    (hok : specOk gs = true) :
+    let o := applyCommands (simDevice []) true (gs.map Chg.cmd) st0
+    o.1 = .ok () ∧ o.2.trace = fullTrace gs ∧ o.2.warns = st0.warns ++ specWarns gs ∧
+    o.2.reloadActive = false ∧ o.2.pend = [] := by
+  intro o
+  let D := simDevice []
+  let s1 : St SimSt := { st0 with pend := [], trace := st0.trace ++ prepCmds }
+  have e1 : prepareDevice D st0 = (.ok (), s1) := prepare_sim st0 hp hparts
+  let s2 : St SimSt := { s1 with pend := [], reloadActive := true, trace := s1.trace ++ [reloadCmd, lit "n", []] }
+  have e2 : scheduleReload D s1 = (.ok (), s2) := schedule_sim s1 rfl hparts
+  let s3 : St SimSt := { s2 with pend := [], trace := s2.trace ++ [confCmd] }
+  have e3 : sendCmd D confCmd s2 = (.ok (), s3) := conf_sim s2 rfl hparts
+  have hr3 : Ready s3 := ⟨rfl, rfl, hparts⟩
+  have hl := loop_spec gs s3 q hr3 hq hc
+  obtain ⟨hl1, hl2, hl3, _⟩ := hl
+  obtain ⟨hlok, hlr, hlq⟩ := hl3 hok
+  let s4 := (changeLoop D true (gs.map Chg.cmd) s3).2
+  have e4 : sendCmd D endCmd s4 = (.ok (), { s4 with pend := [], trace := s4.trace ++ [endCmd] }) :=
+    end_sim s4 hlr.pend hlr.parts
+  let s5 : St SimSt := { s4 with pend := [], trace := s4.trace ++ [endCmd] }
+  have e5 : cancelReload D s5 =
+      (.ok (), { s5 with pend := [], reloadActive := false, trace := s5.trace ++ [cancelCmd, []] }) :=
+    cancel_sim s5 rfl hlr.parts
+  let s6 : St SimSt := { s5 with pend := [], reloadActive := false, trace := s5.trace ++ [cancelCmd, []] }
+  have e6 : writeMem D 2 s6 = (.ok (), { s6 with pend := [], trace := s6.trace ++ [writeCmd] }) :=
+    write_sim s6 rfl hlr.parts 2
+  -- assemble
+  have hbody : guardedBody D true (gs.map Chg.cmd) s2 = (.ok (), s5) := by
+    unfold guardedBody
+    rw [bindM_snd_of_ok _ _ _ () (by rw [e3]), e3, finally_eq, e4]
+    simp only [finRes]
+    show ((changeLoop D true (gs.map Chg.cmd) s3).1, s5) = _
+    rw [hlok]
+  have hguard : guarded D true (gs.map Chg.cmd) s1 = (.ok (), s6) := by
+    unfold guarded
+    rw [bindM_snd_of_ok _ _ _ () (by rw [e2]), e2, finally_eq, hbody, e5]
+    rfl
+  have ho : o = (.ok (), { s6 with pend := [], trace := s6.trace ++ [writeCmd] }) := by
+    show applyCommands D true (gs.map Chg.cmd) st0 = _
+    unfold applyCommands
+    rw [bindM_snd_of_ok _ _ _ () (by rw [e1]), e1, bindM_snd_of_ok _ _ _ () (by rw [hguard]), hguard, e6]
+  rw [ho]
+  refine ⟨rfl, ?_, ?_, rfl, rfl⟩
+  · show s4.trace ++ [endCmd] ++ [cancelCmd, []] ++ [writeCmd] = fullTrace gs
+    show (changeLoop D true (gs.map Chg.cmd) s3).2.trace ++ [endCmd] ++ [cancelCmd, []] ++ [writeCmd] = _
+    rw [hl1]
+    simp [s3, s2, s1, ht, fullTrace]
+  · show (changeLoop D true (gs.map Chg.cmd) s3).2.warns = _
+    rw [hl2]
+
 end NA.Ios
